@@ -325,8 +325,26 @@ let cmd_fscan () =
     Buffer.add_string buf (Printf.sprintf "E%d" (int_of_z e));
     print_endline (Buffer.contents buf))
 
+(* firstsets: "nt nt nt | lhs sym sym ; lhs sym ..." (hex names; empty alternative = body "empty") -> per order (identity, reversed):
+   "nt=sym,sym;nt=...", sets printed sorted *)
+let cmd_firstsets () =
+  iter_lines (fun line ->
+    match String.split_on_char '|' line with
+    | [ns; ps] ->
+      let name h = utf8_runes (hex_to_string h) in
+      let show n = String.concat "" (List.map (fun z -> hex_encode (encode_rune z)) n) in
+      let nts = List.map name (words ns) in
+      let prods = List.filter_map (fun p -> match words p with [] -> None | l :: b -> Some (name l, List.map name b)) (String.split_on_char ';' ps) in
+      let run rv =
+        let (sets, nofuel) = first_sets_z rv (nat_of_int_tr 500) (utf8_runes "empty") nts prods in
+        (if nofuel then "NOFUEL " else "") ^
+        String.concat ";" (List.map (fun (n, s) -> show n ^ "=" ^ String.concat "," (List.sort compare (List.map show s))) sets) in
+      print_endline (run false ^ " # " ^ run true)
+    | _ -> print_endline "BAD")
+
 let () =
   match Array.to_list Sys.argv with
+  | _ :: "firstsets" :: _ -> cmd_firstsets ()
   | _ :: "fscan" :: _ -> cmd_fscan ()
   | _ :: "bisim" :: args -> cmd_bisim args
   | _ :: "dlex" :: file :: _ -> cmd_dlex file
